@@ -65,10 +65,8 @@ func tokensConsume(tokens []token) ([]token, []token) {
 		}
 		// strip escapes, such as ` from `foo`, this allows to use keywords as field names
 		length := len(t.str)
-		if length == 0 {
-			continue
-		}
-		if t.str[0] == '`' && t.str[length-1] == '`' {
+		// Only barewords can be escaped, a quoted string (which may also be empty) is taken literally.
+		if t.isBareword && length >= 2 && t.str[0] == '`' && t.str[length-1] == '`' {
 			stripped := t.str[1 : length-1]
 			//dlog.Common.Trace("stripped", stripped)
 			t := token{
